@@ -295,3 +295,26 @@ Section Rate.
     - change (-53 + 1)%Z with (1 + -53)%Z. rewrite bpow_plus. change (bpow radix2 1) with 2. field.
   Qed.
 End Rate.
+
+(* discharging the premises of the theorems above for a concrete rate through its rational value *)
+Lemma rate_premises_by_Q : forall (rate : f32) (q : Q), f32_to_Q rate = Some q ->
+  Qle_bool (1 # 2 ^ 52) q = true -> Qle_bool q 1 = true ->
+  Binary.is_finite 24 128 rate = true /\ 0 < R32 rate /\ R32 rate <= 1 /\ bpow radix2 (-52) <= R32 rate.
+Proof.
+  intros rate q HQ L U. destruct (f32_to_Q_correct rate q HQ) as [V F].
+  apply Qle_bool_iff in L. apply Qle_bool_iff in U. apply Qle_Rle in L. apply Qle_Rle in U. rewrite V in L, U.
+  assert (B : Q2R (1 # 2 ^ 52) = bpow radix2 (-52)).
+  { unfold Q2R. cbn [Qnum Qden]. change (bpow radix2 (-52)) with (/ IZR (Z.pow_pos 2 52)). rewrite Rmult_1_l. reflexivity. }
+  rewrite B in L. replace (Q2R 1) with 1 in U by (unfold Q2R; cbn; field).
+  assert (0 < bpow radix2 (-52)) by apply bpow_gt_0.
+  repeat split; try assumption. lra.
+Qed.
+Lemma rate_tiny_by_Q : forall (rate : f32) (q : Q), f32_to_Q rate = Some q -> Qle_bool q (1 # 2 ^ 64) = true ->
+  Binary.is_finite 24 128 rate = true /\ R32 rate < bpow radix2 (-63).
+Proof.
+  intros rate q HQ U. destruct (f32_to_Q_correct rate q HQ) as [V F]. split; [exact F|].
+  apply Qle_bool_iff in U. apply Qle_Rle in U. rewrite V in U.
+  assert (B : Q2R (1 # 2 ^ 64) = bpow radix2 (-64)).
+  { unfold Q2R. cbn [Qnum Qden]. change (bpow radix2 (-64)) with (/ IZR (Z.pow_pos 2 64)). rewrite Rmult_1_l. reflexivity. }
+  rewrite B in U. assert (bpow radix2 (-64) < bpow radix2 (-63)) by (apply bpow_lt; lia). lra.
+Qed.
